@@ -557,6 +557,7 @@ fn main() {
     ctx.set("depth_m2_from_states_up_to", json!(d_m2));
     let max_depth = d_core.max(d_full);
 
+    let mut dups: Vec<Node> = vec![];
     let mut all_states: Vec<Node> = frontier.clone();
     let mut per_depth = vec![frontier.len() as u64];
     let mut depth = 0usize;
@@ -612,6 +613,9 @@ fn main() {
                 state_changing += 1;
                 if seen.insert((n.cfg, n.key)) {
                     next.push(n);
+                } else if n.key % 97 == 0 && dups.len() < 400 {
+                    // another history that reaches an already known canonical state
+                    dups.push(n);
                 }
             }
         }
@@ -649,6 +653,51 @@ fn main() {
         });
     }
 
+    // canonical-key argument: "same key, different history => same future". For a fixed slice of
+    // the histories that were dropped as duplicates, the whole M1-core alphabet is applied to the
+    // duplicate and to the representative of its key; every transition must look the same.
+    {
+        let mut reps: std::collections::HashMap<(usize, u64), &Node> = std::collections::HashMap::new();
+        for n in &all_states {
+            reps.entry((n.cfg, n.key)).or_insert(n);
+        }
+        let pairs: Vec<(&Node, &Node)> = dups.iter().filter_map(|d| reps.get(&(d.cfg, d.key)).map(|r| (d, *r))).filter(|(d, r)| d.history != r.history).collect();
+        ctx.set("same_key_different_history_pairs_compared", json!(pairs.len()));
+        let mismatches = AtomicU64::new(0);
+        let core = &alphas[A_CORE];
+        ctx.par_run_init(pairs.len() as u64, 1, |_| Worker::new(), |i, l, w| {
+            let (d, r) = pairs[i as usize];
+            let cfg = &cfgs[d.cfg];
+            let fut = |n: &Node| -> Vec<u64> {
+                let (env, snap) = rebuild(w, &cfg.zone, &n.history);
+                let pre = Pre::new(snap);
+                let saved = w.rt.block_on(env.save());
+                let cur = pre.serial.unwrap_or(0);
+                core.iter()
+                    .enumerate()
+                    .map(|(mi, spec)| {
+                        let out = step(w, &env, &pre, &spec.materialise(cur), 1000 + mi as u16);
+                        if out.changed {
+                            w.rt.block_on(env.restore(&saved));
+                        }
+                        out.digest()
+                    })
+                    .collect()
+            };
+            l.evals_add(2 * core.len() as u64);
+            if fut(d) != fut(r) {
+                mismatches.fetch_add(1, Ordering::Relaxed);
+                l.violation(
+                    "canonical-key:same-key-different-future",
+                    "two histories with the same canonical state key react differently to the same message: the state key misses something observable",
+                    || json!({"history_a": d.history.iter().map(|m| m.text()).collect::<Vec<_>>(), "history_b": r.history.iter().map(|m| m.text()).collect::<Vec<_>>(), "config": cfg.name}),
+                );
+            } else {
+                l.outcome("same-key-same-future");
+            }
+        });
+    }
+
     let st = sh.selftests.load(Ordering::SeqCst);
     ctx.set("selftest_transitions_rebuilt_from_history", json!(st));
     if sh.selftest_mismatch.load(Ordering::SeqCst) > 0 {
@@ -657,7 +706,7 @@ fn main() {
     if st == 0 {
         ctx.machinery_failure("determinism self-test did not run");
     }
-    for class in ["applied-changing", "applied-noop", "rejected", "rejected-by-history-dependent-prerequisite", "obs:several-rcodes-applicable"] {
+    for class in ["applied-changing", "applied-noop", "rejected", "rejected-by-history-dependent-prerequisite", "obs:several-rcodes-applicable", "same-key-same-future", "axfr-agrees"] {
         if ctx.outcome_count(class) == 0 {
             ctx.machinery_failure(&format!("vacuous run: outcome class {class} never exercised"));
         }
